@@ -7,6 +7,7 @@
     thread frozen for ever, are particular schedules. *)
 From Coq Require Import Lia.
 From ASModel Require Import Base State Orderings_gen Step Run Progress.
+From ASModel Require Import Stale2 Stale2InvProg.
 
 (** One own step of a thread inside [load]/[load_full]: the call returns, or the thread
     stops (panic/fault: excluded by C13/C01), or its measure strictly decreases — for
@@ -59,3 +60,34 @@ Print Assumptions C08_others_cannot_interfere.
 Print Assumptions C08_wait_free_bound.
 Print Assumptions C08_entry.
 Print Assumptions C08_example.
+
+(** ** The bound does not depend on what the reader's non-SeqCst loads return.
+
+    [Stale2.step_stale2]: the first read of the fast path, the slot scan (and, on a thread without
+    a node, the look at `in_use` and the head read of [Node::get]) may be answered with stale values.
+    [own_steps_reading2] counts the reader's own steps in a schedule of [step_stale2]; the same
+    bounds hold: a stale scan can only send the reader to the next slot or to the fallback. *)
+Theorem C08_wait_free_bound_stale2 :
+  forall cf t sched s m,
+    t_status (thr s t) = Running -> read_stack (t_stack (thr s t)) m ->
+    (own_steps_reading2 cf t sched s true <= m)%nat /\ (m <= K_load_full)%nat.
+Proof.
+  intros cf t sched s m Hr Hs. split; [apply read_wait_free_stale2; assumption|].
+  eapply read_stack_bound; eassumption.
+Qed.
+
+Theorem C08_load_bound_stale2 :
+  forall cf t sched s p m d,
+    t_status (thr s t) = Running -> t_stack (thr s t) = [p; KDone d] -> rem p = Some m ->
+    (own_steps_reading2 cf t sched s true <= K_load)%nat.
+Proof. exact load_wait_free_stale2. Qed.
+
+Theorem C08_load_full_bound_stale2 :
+  forall cf t sched s p m d,
+    t_status (thr s t) = Running -> t_stack (thr s t) = [p; WLoadFull; KDone d] -> rem p = Some m ->
+    (own_steps_reading2 cf t sched s true <= K_load_full)%nat.
+Proof. exact load_full_wait_free_stale2. Qed.
+
+Print Assumptions C08_wait_free_bound_stale2.
+Print Assumptions C08_load_bound_stale2.
+Print Assumptions C08_load_full_bound_stale2.
